@@ -7,7 +7,7 @@ REQUIRED = ["parcollect_any_schedule", "model_is_function"]
 LEAN_FILES = ["Rbp/Model/Par.lean", "Rbp/Model/Run.lean"]
 RULE = ("black-box: one data directory (blocks with up to hundreds of txs x up to 200 outputs, so rayon really splits the work) run repeatedly with RAYON_NUM_THREADS in {1,2,3,8,16,64}, also pinned to one CPU (taskset) for contention; "
         "csvdump files / opreturn lines / simplestats report must be byte-identical across runs, unspent and balances rows identical as sets, and equal to the model's; sequences of runs sharing one dump folder pre-seeded with stale *.tmp files and older results; "
-        "SHA-256 of every blk*.dat / xor.dat before and after; kv content of the index (hook dumpindex) before and after, and second/third runs on the reopened index. non-trivial = a block with >= 50 txs or a rerun on shared state; distinct = distinct (scenario, threads, repetition)")
+        "SHA-256 of every blk*.dat / xor.dat before and after; kv content of the index (hook dumpindex) before and after, and second/third runs on the reopened index; indexes with two or three fully validated tips of equal height re-run 8 times (the choice of the tip must not depend on hash-map iteration order). non-trivial = a block with >= 50 txs or a rerun on shared state; distinct = distinct (scenario, threads, repetition)")
 ASSUMPTIONS = ["partial: rayon's scheduler and LevelDB's recovery are exercised, not modelled"]
 
 THREADS = [1, 2, 3, 8, 16, 64]
@@ -102,6 +102,49 @@ def correspondence(ctx):
                 ctx.disagree("reads-only", bb.describe(s), {"kv_before": len(kv_before.splitlines()), "kv_after": len(kv_after.splitlines())}, {"expected": "index kv content unchanged"}, True, {"observable": "index-content-modified"})
         finally:
             C.rmtree(base)
+    equal_tips(ctx, r)
+
+
+def equal_tips(ctx, r):
+    """two fully validated tips of equal height (a one-block fork at the tip, both sides connected once): which one is the
+    tip is a matter of definition, but it must be the same one on every run (and the model's: highest (height, hash))"""
+    from .. import gen_index as GI
+    for i in range(ctx.n(6, 30)):
+        cb = ["csvdump", "balances", "opreturn"][i % 3]
+        scripts = lambda rr, c: GC.spk(rr, c, rr.choice(["p2pkh", "p2sh", "opreturn"]))
+        T = r.randrange(2, 6)
+        active = GC.gen_chain(r, "bitcoin", T + 1, max_txs=2, max_io=2, scripts=scripts)
+        s = K.Scenario(coin="bitcoin", callback=cb)
+        GC.simple_layout(s, active, per_file=2)
+        # competitor tip(s) at height T on top of active[T-1], fully validated, with data
+        pos = 0
+        for j in range(r.randrange(1, 4)):
+            cbx = K.Tx([(b"\0" * 32, 0xffffffff, bytes([3, T & 255, 99, j]), 0xffffffff)], [(50 * 10**8, GC.spk(r, "bitcoin", "p2pkh")), (0, b"\x6a\x03alt")])
+            b = K.Block([cbx], prev=active[T - 1].hash(), time=r.randrange(1, 1 << 31), nonce=r.randrange(1 << 32))
+            raw = b.enc()
+            off = s.place_block(K.blkname(9), pos, raw)
+            pos = off + len(raw)
+            s.kvs.append(K.record(b.hash(), T, K.ACTIVE, 1, 9, off, b.header(), undo=3))
+        r.shuffle(s.kvs)
+        s.meta = {"equal-tips": i}
+        impl0, model0 = bb.check(ctx, "equal-tips:" + cb, [s], comparators(cb), nontrivial=lambda s, m: True)
+        ref = canon(cb, impl0[0])
+        sd = bb.SharedDir(s)
+        try:
+            for rep in range(ctx.n(8, 20)):
+                d = sd.clone()
+                try:
+                    res = s.run_impl(datadir=os.path.join(d, "data"))
+                finally:
+                    C.rmtree(d)
+                ctx.mark(("equal-tips", i, rep), True)
+                ctx.families["equal-tips-rerun"] += 1
+                if res.exit != 0 or canon(cb, res) != ref:
+                    ctx.disagree("equal-tips-rerun", dict(bb.describe(s), repetition=rep), {"exit": res.exit, "differs_from_first_run": True}, {"expected": "identical on every run"}, True,
+                                 {"scenario": bb.scenario_dump(s), "observable": "rerun-identical"})
+                    break
+        finally:
+            sd.close()
 
 
 def replay(ctx, rep, corpus=None):
